@@ -48,16 +48,30 @@ impl OutputManager {
             })?;
         }
 
-        // Test write permissions by creating a temporary file
+        // Test write permissions by creating a temporary file. The probe must never
+        // touch a file that is already there: create it exclusively, and remove it
+        // only if this call created it.
         let test_file = self.output_dir.join(".write_test");
-        fs::write(&test_file, "test").map_err(|e| {
-            OutputError::PermissionDenied(format!(
-                "Cannot write to output directory {}: {}",
-                self.output_dir.display(),
-                e
-            ))
-        })?;
-        fs::remove_file(&test_file).ok(); // Ignore errors on cleanup
+        match fs::OpenOptions::new()
+            .write(true)
+            .create_new(true)
+            .open(&test_file)
+        {
+            Ok(_) => {
+                fs::remove_file(&test_file).ok(); // Ignore errors on cleanup
+            }
+            Err(e) if e.kind() == std::io::ErrorKind::AlreadyExists => {
+                // Somebody else's file of that name: leave it alone. The directory
+                // exists and the generated files are written (and verified) anyway.
+            }
+            Err(e) => {
+                return Err(OutputError::PermissionDenied(format!(
+                    "Cannot write to output directory {}: {}",
+                    self.output_dir.display(),
+                    e
+                )));
+            }
+        }
 
         Ok(())
     }
